@@ -301,6 +301,58 @@ def _not():
 _not()
 
 
+# --------------------------------------------------------------------------- operators over REAL leaf items
+def _operators_over_leaves():
+    """$not / $and / $or whose children are real mnemonic (INST) or operand (OPER) items, under every full-match flag setting: an
+    operator never looks inside its child -- in particular a "fast path" for a bare name must say what the item itself says"""
+    BR = "jasm.jasm_regex.tree_generators.pattern_node_implementations.node_branch_root."
+    for opname, cls_i, cls_o in (("$not", "NodeNot", "NodeNotOperand"), ("$and", "NodeAnd", "NodeAnd"), ("$or", "NodeOr", "NodeOr")):
+        for level in (G.INST, G.OPER):
+            if opname == "$not" and level == G.OPER:
+                continue      # the ENTRY family needs the level of a look-ahead body, which only child stubs carry
+            for flag in (False, True):
+                sid = f"{opname}:{level}:real-leaf:full={int(flag)}"
+                cls_name = cls_i if level == G.INST else cls_o
+                func = BR + cls_name + ".get_regex"
+
+                def run(opname=opname, level=level, flag=flag, sid=sid, cls_name=cls_name, func=func):
+                    ensure()
+                    levels: Dict[str, str] = {}
+
+                    def leaf(ident):
+                        if level == G.INST:
+                            return J.mo.PatternNodeMnemonic(node_data(Name(ident), J.gd.TimesType(1, 1), None))
+                        return J.mo.PatternNodeOperand(node_data(Name(ident), J.gd.TimesType(1, 1), None))
+
+                    def leaf_spec(ident):
+                        t = str.__str__(Name(ident))
+                        if level == G.INST:
+                            return f"{HEXADDR}{_window(t, flag)},{REST_OF_RECORD}"
+                        return f"{_window(t, flag)},"
+
+                    def build(times):
+                        set_flags(flag, flag)
+                        kids = [leaf("w1")] if opname == "$not" else [leaf("w1"), leaf("w2")]
+                        node = getattr(J.branch, cls_name)(node_data(opname, times, kids))
+                        return node.get_regex
+
+                    def spec():
+                        if opname == "$not":
+                            if level == G.INST:
+                                return f"(?!{leaf_spec('w1')}){HEXADDR}[^,|]+,(?:[^,|]*,)+\\|"
+                            return f"(?!{leaf_spec('w1')})[^,|]*,"
+                        a, b = leaf_spec("w1"), leaf_spec("w2")
+                        return a + b if opname == "$and" else f"(?:(?:{a})|(?:{b}))"
+                    rp = {"kind": "operator", "op": opname, "level": level, "children": "k1" if opname == "$not" else "k2",
+                          "fm": flag, "fo": flag, "real_leaves": True}
+                    props = ["C04", "C01", "C03", "C02", "C07", "C11"] if opname == "$not" else ["C03", "C01", "C02", "C07", "C11"]
+                    return node_obligations(func, sid, props, level, build, spec, levels, replay=rp, unit=(opname == "$not"))
+                scenario(sid, func, ["C04", "C01", "C03", "C02", "C07", "C11"] if opname == "$not" else ["C03", "C01", "C02", "C07", "C11"],
+                         inlined=["process_children", "PatternNodeMnemonic.get_regex / PatternNodeOperand.get_regex (real children)",
+                                  "InstructionNodeHelper.get_pattern_node_name", "allow_matching_substring"],
+                         doc=f"{opname} over real leaf items at {level} level, full-match flags = {flag}")(run)
+
+
 # --------------------------------------------------------------------------- mnemonic / operand items
 MN_FUNC = ("jasm.jasm_regex.tree_generators.pattern_node_implementations.mnemonic_and_operand."
            "mnemonic_and_operand.PatternNodeMnemonic.get_regex")
@@ -365,11 +417,14 @@ _mnemonic()
 # concrete names of the [0-9a-f]+h spelling: what the rewrite does to particular digits (leading zeros, all zeros, upper case,
 # register look-alikes) is not visible on an opaque stem
 HEX_CONCRETE = ["10h", "0h", "00h", "08h", "0ah", "a0h", "ffh", "A3h", "ah", "dh"]
+# concrete literal names whose SPELLING could be treated specially (a leading '%', a register that is the tail of a longer one,
+# digits only): they denote themselves, like every other name
+LIT_CONCRETE = ["%di", "%rax", "%ax", "rax", "%st", "7", "FF"]
 
 
 def _operand():
     for fo in (False, True):
-        for cat in ["plain", "endh", "hexh", "int"] + [f"hexc:{n}" for n in HEX_CONCRETE]:
+        for cat in ["plain", "endh", "hexh", "int"] + [f"hexc:{n}" for n in HEX_CONCRETE] + [f"lit:{n}" for n in LIT_CONCRETE]:
             sid = f"operand:fo={int(fo)}:{cat}"
 
             def run(fo=fo, cat=cat, sid=sid):
@@ -379,6 +434,8 @@ def _operand():
                 def mkname():
                     if cat.startswith("hexc:"):
                         return cat[5:]
+                    if cat.startswith("lit:"):
+                        return cat[4:]
                     if cat == "plain":
                         return Name("v")
                     if cat == "endh":
@@ -414,3 +471,6 @@ def _operand():
 
 
 _operand()
+
+
+_operators_over_leaves()
